@@ -366,6 +366,15 @@ func c07(c *Ctx) {
 	}
 	if w := c.fn(pkgClaim, "withoutReservedK8sEntries"); w != nil {
 		del := calls(w, "builtin.delete")
+		// the copying shape: entries are stored into a fresh map that is returned
+		var puts []*ssa.MapUpdate
+		for _, b := range w.Blocks {
+			for _, in := range b.Instrs {
+				if mu, ok := in.(*ssa.MapUpdate); ok {
+					puts = append(puts, mu)
+				}
+			}
+		}
 		seen := map[string]bool{}
 		for _, hs := range calls(w, "strings.HasSuffix") {
 			if s, ok := cfgx.ConstString(hs.Common().Args[1]); ok {
@@ -375,7 +384,22 @@ func c07(c *Ctx) {
 						seen[s] = true
 					}
 				}
+				if len(del) == 0 && len(puts) > 0 {
+					kept := false
+					for _, mu := range puts {
+						if r, _ := cfgx.ReachableFromEdges(t, mu, cfgx.BackEdges(w), nil); r {
+							kept = true
+						}
+					}
+					if !kept {
+						seen[s] = true
+					}
+				}
 			}
+		}
+		if len(del) == 0 && len(puts) > 0 {
+			// count the copy as the removal site
+			del = append(del, nil)
 		}
 		c.R.Check(seen["kubernetes.io"] && seen["k8s.io"] && len(del) > 0, load.FuncName(w)+": both suffixes", c.pos(w.Pos()), "deletes keys whose prefix ends in kubernetes.io or k8s.io", "not both reserved suffixes (kubernetes.io, k8s.io) lead to deletion")
 	}
